@@ -178,7 +178,14 @@ fn write_seed_corpus(target: &str, dir: &Path, committed: &Path) {
 }
 
 pub fn run_fuzz_campaign(id: &str, root: &Path, seed: u64, runs_per_job: u64, jobs: u32) -> Result<Value, Failure> {
-    run_fuzz_campaign_on(id, root, seed, runs_per_job, jobs, &["decode_tape", "decode_raw"], 768)
+    // C03-C07 also get the generic target: their own run_tape adds case kinds the two packet targets do
+    // not produce (big payloads next to 2^15/2^16, structured option areas, extra decode offsets);
+    // C01/C02's run_tape walks three placements per case and is too slow under ASan
+    if matches!(id, "C01" | "C02") {
+        run_fuzz_campaign_on(id, root, seed, runs_per_job, jobs, &["decode_tape", "decode_raw"], 768)
+    } else {
+        run_fuzz_campaign_on(id, root, seed, runs_per_job, jobs, &["decode_tape", "decode_raw", "prop_tape"], 640)
+    }
 }
 
 /// Campaign on the generic `prop_tape` target (thorough tier of C08-C17): `tape_len` is the property's
@@ -219,7 +226,7 @@ fn run_fuzz_campaign_on(id: &str, root: &Path, seed: u64, runs_per_job: u64, job
                 .arg(&corpus)
                 .arg(format!("-runs={}", runs_per_job))
                 .arg(format!("-seed={}", seed.wrapping_mul(131).wrapping_add(j as u64 + 1)))
-                .arg(if target == "decode_raw" { "-max_len=2048".to_string() } else { format!("-max_len={}", tape_max_len) })
+                .arg(match target { "decode_raw" => "-max_len=2048".to_string(), "decode_tape" => "-max_len=768".to_string(), _ => format!("-max_len={}", tape_max_len) })
                 .arg("-len_control=0")
                 .arg("-timeout=30")
                 .arg("-rss_limit_mb=4096")
